@@ -44,6 +44,9 @@ struct Root {
     n: i64,
     /// events(kind:)
     kind: Option<&'static str>,
+    /// a dynamic subscription stream cannot yield a null event of a union type
+    /// (`FieldValue::NULL` is rejected for unions), so that flavour streams no null events
+    null_events: bool,
 }
 
 impl Root {
@@ -57,7 +60,8 @@ impl Root {
             return PlanVal::Node { ty: "Tick".into(), id };
         }
         match (self.kind, id % 3) {
-            (_, 0) => PlanVal::Null,
+            (_, 0) if self.null_events => PlanVal::Null,
+            (None, 0) => PlanVal::Node { ty: if id % 2 == 0 { "Dog" } else { "Cat" }.into(), id },
             (Some("CAT"), _) => PlanVal::Node { ty: "Cat".into(), id },
             (Some(_), _) => PlanVal::Node { ty: "Dog".into(), id },
             (None, 1) => PlanVal::Node { ty: "Dog".into(), id },
@@ -181,7 +185,7 @@ fn expected_of(ts: &TypeSystem, case: &SubCase) -> BTreeMap<String, Vec<RefResul
 fn gen_case(ts: &Arc<TypeSystem>, r: &mut Rng, flavour: &'static str, o: &GenOpts) -> SubCase {
     let nroots = if o.small {
         2
-    } else if !o.cross_root_errors && r.chance(1, 3) {
+    } else if !o.cross_root_errors && r.chance(1, 2) {
         1
     } else {
         match r.below(8) {
@@ -195,10 +199,16 @@ fn gen_case(ts: &Arc<TypeSystem>, r: &mut Rng, flavour: &'static str, o: &GenOpt
         let key = ["a", "b", "c"][i].to_string();
         let ticks = if o.small { r.chance(5, 6) } else { r.chance(2, 3) };
         if ticks {
-            let n = if o.small { 1 + (i as i64 % 2) * r.below(2) as i64 } else { 1 + r.below(3) as i64 };
-            roots.push(Root { key, field: "ticks", n, kind: None });
+            let n = if o.small {
+                1 + (i as i64 % 2) * r.below(2) as i64
+            } else if nroots == 1 {
+                2 + r.below(2) as i64
+            } else {
+                1 + r.below(3) as i64
+            };
+            roots.push(Root { key, field: "ticks", n, kind: None, null_events: flavour == "static" });
         } else {
-            roots.push(Root { key, field: "events", n: 0, kind: *r.pick(&[None, Some("DOG"), Some("CAT")]) });
+            roots.push(Root { key, field: "events", n: 0, kind: *r.pick(&[None, Some("DOG"), Some("CAT")]), null_events: flavour == "static" });
         }
     }
     let doc = subscription_doc(&roots, r, o.small);
@@ -218,12 +228,26 @@ fn gen_case(ts: &Arc<TypeSystem>, r: &mut Rng, flavour: &'static str, o: &GenOpt
     }
     let multi = case.roots.len() > 1;
     let errs_ok = !multi || o.cross_root_errors;
-    let nf = if cands.is_empty() { 0 } else { [0, 1, 1, 2, 2, 3][r.below(6)] };
+    let nf = if cands.is_empty() {
+        0
+    } else if !multi {
+        [1, 2, 2, 3, 3, 4][r.below(6)]
+    } else {
+        [0, 1, 1, 2, 2, 3][r.below(6)]
+    };
+    // half of the cases put all their faults into one event (several errors of one response)
+    let same_event = r.bool();
+    let mut first_owner: Option<(String, usize)> = None;
     for _ in 0..nf {
-        let (pos, owner, nullable) = r.pick(&cands).clone();
+        let pool: Vec<&((String, u64), (String, usize), bool)> = match (&first_owner, same_event) {
+            (Some(o), true) => cands.iter().filter(|c| c.1 == *o).collect(),
+            _ => cands.iter().collect(),
+        };
+        let (pos, owner, nullable) = (*r.pick(&pool)).clone();
+        first_owner.get_or_insert(owner.clone());
         let kind = if nullable {
             if errs_ok && r.chance(4, 5) { Fault::Err } else { Fault::Null }
-        } else if errs_ok && r.chance(1, 4) {
+        } else if errs_ok && r.chance(1, if multi { 4 } else { 2 }) {
             // outside the property's quantifier (non-null position): kept as a minority
             Fault::Err
         } else {
@@ -293,7 +317,7 @@ fn dyn_schema(ts: &TypeSystem) -> Result<async_graphql::dynamic::Schema, String>
             let key = key_of(&ctx);
             let n = ctx.args.get("n").and_then(|v| v.i64().ok()).unwrap_or(3);
             env.log.push(Ek::Stream, &key, "Subscription", "ticks", Some(Val::Obj(vec![("n".into(), Val::Int(n))])), "subscribed");
-            let root = Root { key: key.clone(), field: "ticks", n, kind: None };
+            let root = Root { key: key.clone(), field: "ticks", n, kind: None, null_events: false };
             let count = root.count();
             Ok(futures_util::stream::unfold(0usize, move |k| {
                 let env = env.clone();
@@ -323,7 +347,7 @@ fn dyn_schema(ts: &TypeSystem) -> Result<async_graphql::dynamic::Schema, String>
                 None => None,
             };
             env.log.push(Ek::Stream, &key, "Subscription", "events", None, "subscribed");
-            let root = Root { key: key.clone(), field: "events", n: 0, kind };
+            let root = Root { key: key.clone(), field: "events", n: 0, kind, null_events: false };
             Ok(futures_util::stream::unfold(0usize, move |k| {
                 let env = env.clone();
                 let root = root.clone();
@@ -570,6 +594,12 @@ fn check(case: &SubCase, exp: &BTreeMap<String, Vec<RefResult>>, obs: &Obs) -> (
             diffs.push(format!("root {key}: its stream produced {} event(s) but {} response(s) were yielded (lost or duplicated)", evs.len(), got));
         }
     }
+    for root in &case.roots {
+        let subscribed = obs.events.iter().any(|e| e.kind == Ek::Stream && e.path == root.key && e.extra == "subscribed");
+        if obs.ended && !subscribed && root.count() > 0 {
+            diffs.push(format!("root field {} was never subscribed: all its events are lost", root.key));
+        }
+    }
     if !obs.ended {
         diffs.push(format!(
             "the response stream did not end: {:?} after {} responses, {} gates opened",
@@ -702,9 +732,10 @@ fn judge(cx: &Ctx<'_>, case: &SubCase, exp: &BTreeMap<String, Vec<RefResult>>, g
     if st.error_raised_while_other_root_in_flight {
         run.count("runs_error_raised_while_other_root_in_flight", 1);
     }
-    if st.two_roots_in_flight && (st.responses_with_errors > 0 || !case.world.node_faults.is_empty()) {
+    // at most one sample per case (its second distinct schedule)
+    if st.two_roots_in_flight && fresh && seen.len() == 2 && (st.responses_with_errors > 0 || obs.report.opened.len() % 7 == 0) {
         run.sample_upto(
-            3,
+            if st.responses_with_errors > 0 { 3 } else { 1 },
             json!({"flavour": case.flavour, "document": case.printed.text, "node_faults": faults_json(case),
                    "schedule": obs.report.opened, "responses": responses_json(&obs)}),
         );
@@ -736,12 +767,12 @@ fn gen_opts(run: &Run, flavour: &str, small: bool) -> GenOpts {
     }
 }
 
-fn one_case(cx: &Ctx<'_>, case_seed: u64, flavour: &'static str, small: bool, cap: usize, randoms: u64) {
+fn one_case(cx: &Ctx<'_>, index: u64, case_seed: u64, flavour: &'static str, small: bool, cap: usize, randoms: u64) {
     let run = cx.run;
     let o = gen_opts(run, flavour, small);
     let mut r = Rng::new(case_seed);
     let case = gen_case(&cx.ts, &mut r, flavour, &o);
-    let genj = json!({"case_seed": case_seed, "flavour": flavour, "small": small,
+    let genj = json!({"case_index": index, "case_seed": case_seed, "flavour": flavour, "small": small,
                      "cross_root_errors": o.cross_root_errors, "nullable_errors": o.nullable_errors});
     let exp = expected_of(&cx.ts, &case);
     run.count("cases", 1);
@@ -800,18 +831,25 @@ fn canonical(o: &Observed) -> (J, Vec<String>) {
     (o.data.clone(), errs)
 }
 
-fn streamed_nonsub(run: &Run, r: &mut Rng, s1ts: &Arc<TypeSystem>, s1schema: &AnySchema) {
-    let (ts, schema) = if r.chance(1, 2) {
-        (s1ts.clone(), s1schema.clone())
-    } else {
-        let mut to = ts_opts(run);
-        to.max_objects = 3;
-        let ts = Arc::new(gen_type_system(r, &to));
-        match catch(|| dynb::build(&ts)) {
-            Ok(Ok(s)) => (ts, AnySchema::Dyn(s)),
-            _ => return,
+fn streamed_nonsub(cx: &Ctx<'_>, r: &mut Rng) {
+    let run = cx.run;
+    let (ts, schema, class) = match r.below(4) {
+        0 | 1 => (cx.ts.clone(), cx.s1.clone(), "static"),
+        2 => (cx.ts.clone(), cx.dy.clone(), "dynamic_with_subscription_type"),
+        _ => {
+            if !run.feature("dynamic_stream_without_subscription_type") {
+                return;
+            }
+            let mut to = ts_opts(run);
+            to.max_objects = 3;
+            let ts = Arc::new(gen_type_system(r, &to));
+            match catch(|| dynb::build(&ts)) {
+                Ok(Ok(s)) => (ts, AnySchema::Dyn(s), "dynamic_without_subscription_type"),
+                _ => return,
+            }
         }
     };
+    run.count(&format!("streamed_nonsub_{class}"), 1);
     let mut o = doc_opts(run);
     o.max_depth = 2;
     o.max_items = 3;
@@ -849,6 +887,12 @@ fn streamed_nonsub(run: &Run, r: &mut Rng, s1ts: &Arc<TypeSystem>, s1schema: &An
         run.count("streamed_nonsub_with_errors", 1);
     }
     run.nontrivial(rng::mix(&[case.hash(), 4]));
+    run.sample_upto(
+        5,
+        json!({"kind": "streamed query/mutation", "flavour": class, "document": case.printed.text, "variables": case.gd.vars,
+               "faults": format!("{:?}", case.world.faults), "responses_from_execute_stream": streamed.iter().map(|r| observe(r).raw).collect::<Vec<_>>(),
+               "response_from_execute": observe(&single).raw}),
+    );
     let mut diffs = vec![];
     if streamed.len() != 1 {
         diffs.push(format!("execute_stream yielded {} responses for a {:?}, expected exactly one", streamed.len(), o.kind));
@@ -894,7 +938,7 @@ fn witness_case(flavour: &'static str, roots: Vec<(&str, Vec<&str>)>, faults: Ve
     for (key, fields) in &roots {
         let s = fields.iter().map(|f| fsel(&mut doc, None, f, vec![], vec![])).collect();
         sel.push(fsel(&mut doc, Some(key), "ticks", vec![("n", Val::Int(1))], s));
-        rs.push(Root { key: key.to_string(), field: "ticks", n: 1, kind: None });
+        rs.push(Root { key: key.to_string(), field: "ticks", n: 1, kind: None, null_events: flavour == "static" });
     }
     doc.ops = vec![Op { kind: OpKind::Subscription, name: None, vars: vec![], dirs: vec![], sel }];
     let printed = print(&doc, false);
@@ -960,6 +1004,46 @@ fn witness_dynamic(cx: &Ctx<'_>) {
     }
 }
 
+/// Dynamic schema without a subscription type: `{ f }` through `execute_stream`.
+fn witness_no_subscription_root(cx: &Ctx<'_>) {
+    use vh_model::types::{FieldDef, Kind, Ty, TypeDef};
+    let run = cx.run;
+    let mut ts = TypeSystem::new("Query");
+    ts.add(TypeDef {
+        name: "Query".into(),
+        kind: Kind::Object { fields: vec![FieldDef { name: "f".into(), args: vec![], ty: Ty::named("Int") }], implements: vec![] },
+    });
+    let ts = Arc::new(ts);
+    let Ok(schema) = dynb::build(&ts) else {
+        run.inconclusive("witness schema `type Query { f: Int }` does not build");
+        return;
+    };
+    let env = Env::new(ts.clone(), world_for("dynamic", 3));
+    let streamed: Vec<Response> =
+        vh_core::vsched::block_on(schema.execute_stream(Request::new("{ f }").data(env.clone())).take(4).collect());
+    let single = vh_core::vsched::block_on(schema.execute(Request::new("{ f }").data(env)));
+    run.evals(2);
+    let show = |r: &Response| {
+        let o = observe(r);
+        format!("data {} errors {:?}", o.data, o.errors.iter().map(|e| e.message.clone()).collect::<Vec<_>>())
+    };
+    let observed = format!(
+        "type Query {{ f: Int }} (no subscription type): execute_stream(\"{{ f }}\") -> {} ; execute -> {}",
+        streamed.iter().map(|r| show(r)).collect::<Vec<_>>().join(" ; "),
+        show(&single)
+    );
+    if streamed.len() == 1 && canonical(&observe(&streamed[0])) == canonical(&observe(&single)) {
+        run.count("witness_dynamic_stream_without_subscription_type_now_clean", 1);
+        run.note(&format!("C27 witness behaves: {observed}"));
+    } else {
+        run.violation(
+            &format!("C27-dynamic-streamed-query-needs-subscription-type|{observed}"),
+            &format!("pinned witness: {observed}"),
+            json!({"generator": {"witness": "C27-no-subscription-root"}, "observed": observed}),
+        );
+    }
+}
+
 // ---------------------------------------------------------------- replay
 
 fn replay(cx: &Ctx<'_>, path: &std::path::Path) {
@@ -975,6 +1059,7 @@ fn replay(cx: &Ctx<'_>, path: &std::path::Path) {
         match g["witness"].as_str() {
             Some("C27-static") => witness_static(cx),
             Some("C27-dynamic") => witness_dynamic(cx),
+            Some("C27-no-subscription-root") => witness_no_subscription_root(cx),
             _ => println!("NOTE: replay of this case kind is not supported (streamed query/mutation cases carry document, variables, world seed and faults for the C03/C05 replay path)"),
         }
         return;
@@ -1047,32 +1132,39 @@ pub fn main() {
     if run.feature("static_errors_with_concurrent_roots") {
         run.require_counter("runs_error_raised_while_other_root_in_flight");
     }
-    let cases = run.scale(480, 6400);
+    let cases = run.scale(1200, 12_000);
     let cap = run.scale(150, 1500) as usize;
     let randoms = run.scale(30, 120);
-    let nonsub = run.scale(400, 8000);
+    let nonsub = run.scale(1200, 20_000);
     let shards = n_shards(&run);
+    let deadline = run.scale(240, 2700) as f64;
     let run = &run;
     let cx = Ctx { run, ts: s1ts.clone(), s1: s1s, dy: dys };
     witness_static(&cx);
     witness_dynamic(&cx);
+    witness_no_subscription_root(&cx);
     let cx = &cx;
     std::thread::scope(|sc| {
         for shard in 0..shards {
             sc.spawn(move || {
                 let mut i = shard;
                 while i < cases {
+                    if run.elapsed_s() > deadline {
+                        if shard == 0 {
+                            run.inconclusive(&format!("watchdog: wall-clock budget of {deadline} s exceeded after about {i} of {cases} cases"));
+                        }
+                        return;
+                    }
                     let case_seed = rng::mix(&[run.seed, 27, i]);
                     let flavour = if i % 3 == 2 { "dynamic" } else { "static" };
                     let small = (i / 3) % 2 == 0;
-                    one_case(cx, case_seed, flavour, small, cap, randoms);
+                    one_case(cx, i, case_seed, flavour, small, cap, randoms);
                     i += shards;
                 }
                 let mut r = shard_rng(run, 27, 1000 + shard);
-                let s1schema = cx.s1.clone();
                 let mut j = shard;
-                while j < nonsub {
-                    streamed_nonsub(run, &mut r, &cx.ts, &s1schema);
+                while j < nonsub && run.elapsed_s() <= deadline {
+                    streamed_nonsub(cx, &mut r);
                     j += shards;
                 }
             });
